@@ -130,6 +130,9 @@ def traitOf (g : Grammar) (self : Nat) (k : Kind) : AEntry :=
   | .enable c => ⟨.seq, [.node c]⟩
   | .disable c => ⟨.seq, [.node c]⟩
   | .action _ c => ⟨.seq, [.node c]⟩
+  | .ifApply c _ => ⟨.seq, [.node c]⟩                     -- analyze_traits< Name, typename Rule::rule_t >: the rule's own entry, here as a one-element seq
+  | .control _ c => ⟨.seq, [.node c]⟩                     -- analyze_traits< Name, typename seq< Rules... >::rule_t >
+  | .applyR _ => ⟨.opt, []⟩                              -- analyze_opt_traits<>
   | .state _ c => ⟨.seq, [.node c]⟩                       -- analyze_traits< Name, typename seq< Rules... >::rule_t >
 
 /-- How many auxiliary types the trait of kind `k` creates. -/
